@@ -86,10 +86,12 @@ public:
         }
         bool advance(Handle id, subscribtion_type type) {
             std::lock_guard _(_mx);
+            COCLS_VERIF_LOG("pub_adv", id, _regs[id]._pos);
             return advance_lk(id,type);
         }
         bool advance_suspend(Handle id, awaiter *awt) {
             std::lock_guard _(_mx);
+            COCLS_VERIF_LOG("pub_sus", id, _regs[id]._pos);
             return advance_suspend_lk(id,awt);
         }
 
@@ -106,6 +108,7 @@ public:
 
         std::optional<T> get_value(Handle id, subscribtion_type type) {
             std::lock_guard _(_mx);
+            COCLS_VERIF_LOG("pub_get", id, _regs[id]._pos);
             return get_value_lk(id,type);
         }
         void push(T &&val) {
